@@ -663,7 +663,7 @@ class Node:
             else:
                 pass
                 # raise NotImplementedError("Cross-tree adding")
-            if data_id and data_id != source_node._data_id:
+            if data_id is not None and data_id != source_node._data_id:
                 raise UniqueConstraintError(f"data_id conflict: {source_node}")
 
             if data_id is None:
@@ -1324,10 +1324,10 @@ class Node:
 
         See also :ref:`iteration-callbacks`.
         """
-        if data:
+        if data is not None:
             assert data_id is None
             data_id = self._tree.calc_data_id(data)
-        if data_id:
+        if data_id is not None:
             assert match is None
             return [
                 n for n in self.iterator(add_self=add_self) if n._data_id == data_id
